@@ -40,6 +40,11 @@ CLAIMS = {
         text="The documented path semantics is written twice in TLA+ (top-down search, bottom-up match) and TLC checks the two agree on every tree and path tried; every tree of <= N objects x all 1-step paths, all / sampled 2-step and sampled 3-step paths is exported with the expected result set and replayed through three text spellings against ASTXpath.findall (duplicate-free, as a set), find, match for every node with root and Tree arguments, and the node.find / node.findall front-ends. Random trees with tuples up to 13 and random 1-4 step paths with indices up to 12 are recorded and validated by Trace_Tree.tla.",
         note="Trusted: TLC (incl. Randomization!RandomSubset for the path samples), zoo renderer, the xpath text renderer. The order in which findall yields is not part of the property and not compared; trees with one object at two positions are excluded.",
         design="6 C07"),
+    "C08": dict(
+        technique="TLA+ oracle (Pattern.tla: Match / Multi over a pattern AST, tiny regex semantics over character sequences) + TLC generation of exact patterns and single-point variations replayed through the text grammar + TLC trace validation of random patterns",
+        text="The pattern semantics of the statement is a recursive TLA+ operator over pattern ASTs (classes by instance, field existence, regex anchored at the start of str(value) modelled on character sequences, None, [], nested, sequences with / without tail, variables with content equality for nodes, captures as slot / atom / tuple-of-slots values, empty captures on failure) plus Multi = first matching rule; TLC checks that the exact pattern of every node matches it, that generated patterns are well formed and that Multi returns the first match, and exports for the newest node of every heap the exact pattern and its variations with expected verdict and captures. The driver renders each in three whitespace styles, compiles all before matching, and matches fresh / cached / recompiled / through MultiPatternMatcher comparing captures with `is`. Random patterns of depth <= 3 written against random nodes are recorded and validated by Trace_Pattern.tla.",
+        note="Trusted: TLC, the pattern text renderer, pools (str() of plain pool values as character sequences in Zoo.tla). Not compared (statement silent): sequence specs on str values, regex specs on node values.",
+        design="6 C08"),
     "C10": dict(
         technique="TLA+ action properties (Immutable, MembershipFrame, FailFrame) on Registry.tla + Observe actions replayed with per-step fingerprints of every live node",
         text="In the Registry machine no action changes the record of a surviving slot (Immutable) and registry membership changes only in detach / detach_self / replace on the receiver's subtree (MembershipFrame); Observe actions stand for every read-only operation kind (traversals, Tree queries, xpath, patterns, visitors, transformers, comparison, hashing, rich printing, accessors, (de)serialization, setattr / delattr on every field) and are UNCHANGED. TLC exports every transition; the driver fingerprints every live node before each call and compares after it, and compares the whole abstract state with the spec's. Recorded histories are checked the same way at every step.",
